@@ -34,6 +34,7 @@ fn main() {
         "render" => behave::run_render(tier, seed, &mut out),
         "behave_subsets" => behave::run_subsets(tier, seed, &mut out),
         "behave_matrix" => behave::run_matrix(tier, seed, &mut out),
+        "behave_changes" => behave::run_changes(tier, seed, &mut out),
         "attrroute" => behave::run_attrroute(tier, seed, &mut out),
         "guardden" => exprs::run_guardden(tier, seed, &mut out),
         "entnames" => lit::run_entnames(&mut out),
